@@ -1075,7 +1075,8 @@ func (field *SortField) RenderBytes(buf *bytes.Buffer, posmap BufPositionsMap) *
 	Begin := buf.Len()
 
 	if field.Name != "" {
-		_, _ = buf.WriteString(field.Name)
+		// (quoted when needed, as every other identifier of a printed statement: the text is parsed again)
+		_, _ = buf.WriteString(QuoteIdent(field.Name))
 		_, _ = buf.WriteString(" ")
 	}
 	if field.Ascending {
